@@ -27,9 +27,10 @@ func verifRoot() string {
 }
 
 type runResult struct {
-	t   *plugin.Transcript
-	out Outcome
-	err error
+	t      *plugin.Transcript
+	out    Outcome
+	err    error
+	notMin []string
 }
 
 func runCopy(c *Case, sel BindSel, seed int64) runResult {
@@ -39,8 +40,9 @@ func runCopy(c *Case, sel BindSel, seed int64) runResult {
 		for k, v := range MonitorStats(w) {
 			t.Stats[k] += v
 		}
+		return runResult{t, out, err, ChoiceDisagreements(w)}
 	}
-	return runResult{t, out, err}
+	return runResult{t, out, err, nil}
 }
 
 // compareBatch pipes many transcripts through ONE gxdrv_plugin process (every history starts with `init`, which resets
@@ -93,10 +95,14 @@ func (c *collector) hit(k string) { c.r.Histogram[k]++ }
 
 // addTranscript records a finished history: violations (with shrunk replay for the first of each kind), hang, stats;
 // the correspondence comparison is batched.
-func (c *collector) addTranscript(t *plugin.Transcript, name string) {
+func (c *collector) addTranscript(t *plugin.Transcript, name string, notMin ...string) {
 	c.mu.Lock()
 	defer c.mu.Unlock()
 	c.r.Traces++
+	for _, m := range notMin {
+		p := c.e.WriteReplay(prop, "history", "choice-not-min-"+name, []string{"where=choice-is-min", "what=" + m}, t.Ops)
+		c.r.Disagree = append(c.r.Disagree, hx.Disagreement{Where: "choice-is-min", Impl: m, Model: "choiceIsMin: the first address must be the lowest address of the key", Replay: p, Ops: t.Ops})
+	}
 	for k, v := range t.Stats {
 		c.r.Histogram[k] += v
 	}
@@ -280,7 +286,7 @@ func runCase(col *collector, c *Case, seed int64, name string, maxCopies int) {
 		col.mu.Unlock()
 		return
 	}
-	col.addTranscript(first.t, name+"-0")
+	col.addTranscript(first.t, name+"-0", first.notMin...)
 	copies := 1
 	bound := 0
 	if first.out.Bound != "" {
@@ -290,7 +296,7 @@ func runCase(col *collector, c *Case, seed int64, name string, maxCopies int) {
 		for k := 1; k < len(first.out.Approved) && copies < maxCopies; k++ {
 			r := runCopy(c, BindSel{K: k}, seed)
 			if r.err == nil {
-				col.addTranscript(r.t, fmt.Sprintf("%s-%d", name, k))
+				col.addTranscript(r.t, fmt.Sprintf("%s-%d", name, k), r.notMin...)
 				copies++
 				if r.out.Bound != "" {
 					bound++
@@ -300,7 +306,7 @@ func runCase(col *collector, c *Case, seed int64, name string, maxCopies int) {
 		if len(first.out.Rejected) > 0 {
 			r := runCopy(c, BindSel{Rejected: true}, seed)
 			if r.err == nil {
-				col.addTranscript(r.t, name+"-rej")
+				col.addTranscript(r.t, name+"-rej", r.notMin...)
 				col.mu.Lock()
 				col.hit("case:bind-on-rejected-node")
 				col.mu.Unlock()
@@ -394,13 +400,26 @@ func runFile(col *collector, path string, isCorpus bool) {
 	}
 	var last *plugin.Transcript
 	for i := 0; i < repeat; i++ {
-		t, err := plugin.ReplayOps(ops, rand.New(rand.NewSource(col.e.Seed+int64(i))), Monitor)
+		conf, err := plugin.ParseInitLine(ops[0])
+		var t *plugin.Transcript
+		var w *plugin.World
+		if err == nil {
+			t, w, err = plugin.Execute(conf, rand.New(rand.NewSource(col.e.Seed+int64(i))), plugin.FixedScript(ops[1:]), Monitor, len(ops))
+		}
 		if err != nil {
 			r.Disagree = append(r.Disagree, hx.Disagreement{Where: "replay-failed", Impl: err.Error(), Replay: path})
 			return
 		}
 		last = t
-		if len(t.Violations) > 0 || t.Hang != "" {
+		for k, v := range MonitorStats(w) {
+			t.Stats[k] += v
+		}
+		nm := ChoiceDisagreements(w)
+		for _, m := range nm {
+			r.Disagree = append(r.Disagree, hx.Disagreement{Where: "choice-is-min", Impl: m,
+				Model: "choiceIsMin: the first address must be the lowest address of the key", Replay: path, Ops: t.Ops})
+		}
+		if len(t.Violations) > 0 || t.Hang != "" || len(nm) > 0 {
 			break
 		}
 	}
